@@ -725,6 +725,23 @@ func (e *Env) call(n *CCall) Val {
 			return boolV(app("=>", snot(app("=", app("sarr", v.S), "anil")), app(">=", app("oid", app("sarr", v.S)), base)))
 		}
 		cfail("fresh() of %s", v.Sort)
+	case "ranged":
+		// ranged(): the slice a `for ... range` loop iterates over (evaluated once before the loop)
+		if e.inLoop == nil || e.st == nil || e.fr == nil {
+			cfail("ranged() outside a loop contract")
+		}
+		for _, in := range e.inLoop.Head.Instrs {
+			if b, ok := in.(*ssa.BinOp); ok {
+				if c, isCall := b.Y.(*ssa.Call); isCall {
+					if bi, isB := c.Call.Value.(*ssa.Builtin); isB && bi.Name() == "len" && len(c.Call.Args) == 1 {
+						if v, have := e.fr.vals[c.Call.Args[0]]; have {
+							return v
+						}
+					}
+				}
+			}
+		}
+		cfail("ranged(): the loop is not a range over a slice")
 	case "visited":
 		// visited(k): key k has been handed out by the map range of the current loop
 		if e.inLoop == nil || e.st == nil {
